@@ -2,8 +2,9 @@
    Statements only; proofs in Ws/WsVariantFacts.v, Ws/PrettyVariant.v, Ws/WrapSerFacts.v. *)
 From Coq Require Import List NArith ZArith Bool.
 From Delb.Base Require Import PyStr PyStrFacts.
+From Delb.Gen Require Import GenWrap.
 From Delb.Tree Require Import ATree Merge.
-From Delb.Ws Require Import Reduce Pretty SimplePP WsVariant WsVariantFacts PrettyVariant Wrap.
+From Delb.Ws Require Import Reduce Pretty SimplePP WsVariant WsVariantFacts PrettyVariant Wrap WrapSerFacts.
 Import ListNotations.
 
 (* (A) soundness of the legality criterion, for every serializer: reducing a legal whitespace variant
@@ -38,3 +39,64 @@ Example C03_width0_example :
   let t := Tag [] [114%N] [] [Text [97; 32]%N; Tag [] [98%N] [] [Text [120%N]]; Text [32; 99]%N; Comment [99%N]] in
   reduce_model t = t /\ pretty [SP; SP] false t <> render (plain t) /\ reduce_model (pretty_seen [SP; SP] false t) = t.
 Proof. vm_compute. repeat split. discriminate. Qed.
+
+(* ---- width > 0 (TextWrappingSerializer, Ws/Wrap.v) ----------------------------------------------------------
+
+   The full statement
+
+     Theorem C03_wrapped : forall req T sr t ind align w, get T sr = Some t -> reduced t -> ws_indent ind = true ->
+       (0 < w)%Z -> reduce_model (seen (wrap_chunk ind align w req sr (after_path T sr) t)) = t.
+
+   (for every fitting oracle `req`, the real `_required_space` being the instance `real_req T sr`) is FALSE of
+   the faithful model: finding C03-preserved-newline-offset, refuted below on the model instantiated with the
+   real heuristics.  Under the decidable guard `preserved_newline false T = false` (the class of the finding)
+   the statement is what the check searches counterexamples for on every run (none outside the class); its
+   proof is reduced here to part (A) - whose relation admits inner variants of texts - plus the text-run lemma
+   below.  PARTIAL: the node-level induction
+
+     Lemma wrap_is_variant : preserved_newline false T = false -> nft t ->
+       ws_variant t (merge_tree (seen (wrap_chunk ind align w req sr aft t)))
+
+   (invariant: writer offset = 0 only at the start of the stream or after a newline that is legal before the
+   next node) is not proved. *)
+
+Theorem C03_wrapped_refuted : exists t ind align w, reduced t /\ ws_indent ind = true /\ (0 < w)%Z /\
+  reduce_model (wrap_seen ind align w t []) <> t.
+Proof. exact wrapped_refuted. Qed.
+Print Assumptions C03_wrapped_refuted.
+
+(* the witness lies in the class of the finding (the guard is not vacuous in either direction: see the Example) *)
+Theorem C03_wrapped_witness_in_class : preserved_newline false c03_witness = true.
+Proof. exact (proj1 (proj2 (proj2 c03_witness_facts))). Qed.
+
+(* text run: normalised text k written over lines separated by any non-empty whitespace run (newline plus the
+   indentation of the depth), with whitespace w1 before and w2 after it, reduces to k with exactly the spaces the
+   positions allow - i.e. the line breaks vanish and no character of k is altered *)
+Theorem C03_wrapped_text_run_partial : forall k sep ls w1 w2 first last,
+  core k -> py_join [SP] ls = k -> Forall edge_clean ls -> ls <> [] ->
+  all_ws sep -> sep <> [] -> all_ws w1 -> all_ws w2 ->
+  reduce_text_spec (w1 ++ py_join sep ls ++ w2) first last
+  = (if first then [] else optsp (negb (null w1))) ++ k ++ (if last then [] else optsp (negb (null w2))).
+Proof. exact wrapped_text_run_erased. Qed.
+Print Assumptions C03_wrapped_text_run_partial.
+
+(* the lines the generated _wrap_text yields for a normalised text (any width >= 1), written with any non-empty
+   whitespace run between them, are an inner variant of the text: line breaks are only placed at single spaces,
+   words are neither split nor joined, and clause (iii) of ws_variant admits the result *)
+Theorem C03_wrapped_lines_variant : forall k (w : nat) sep, (0 < w)%nat -> core k -> all_ws sep -> sep <> [] ->
+  exists ls, wrap_text k (Z.of_nat w) = Some ls /\ inner_variant k (py_join sep ls).
+Proof. exact wrapped_lines_variant. Qed.
+Print Assumptions C03_wrapped_lines_variant.
+
+(* character data written through the generated entity table is read back unchanged ("no non-whitespace character
+   is altered" at the level of the escaping the serializers apply) *)
+Theorem C03_text_escape_roundtrip : forall s, unesc (esc_text s) = s.
+Proof. exact unesc_esc_text. Qed.
+Print Assumptions C03_text_escape_roundtrip.
+
+Example C03_wrapped_example :
+  let t := Tag [] [114%N] [] [Text [97; 97; 32; 98; 98; 32]%N; Tag [] [105%N] [] [Text [99; 99]%N]; Text [32; 100; 100; 32; 101; 101]%N] in
+  reduce_model t = t /\ preserved_newline false t = false /\
+  wrap_str [SP; SP] false 5%Z t [] <> render (plain t) /\
+  reduce_model (wrap_seen [SP; SP] false 5%Z t []) = t.
+Proof. exact wrapped_ok_example. Qed.
